@@ -18,6 +18,7 @@
 //   --dump-headers    -> "<hex name> <list 0|1>" for every registered header
 #include "squid.h"
 #include "../lib/rfc1738.cc"
+#include "base/CharacterSet.h"
 #include "HttpHeader.h"
 #include "HttpRequest.h"
 #include "http/RegisteredHeaders.h"
